@@ -405,6 +405,7 @@ func execC07(x *X) {
 				rd.Chunks = []int{int(op.I)}
 			}
 			rd.EOFWithData = op.ID%2 == 0
+			rd.ZeroFirst = op.J > 0 && op.ID%3 == 0
 			for _, s := range op.L {
 				n, _ := strconv.Atoi(s)
 				rd.Chunks = append(rd.Chunks, n)
